@@ -28,10 +28,19 @@ func fieldExamples(fd protoreflect.FieldDescriptor) []string {
 }
 
 // exampleViolation checks that a field with examples holds one of them parsed to its type.
+// exampleSkipOtherFiles is set while KF-C20-4 is open: examples declared on messages outside the file that
+// defines the services are not collected by the mock generator.
+var exampleSkipOtherFiles struct {
+	on      bool
+	file    string
+	skipped int
+}
+
 func exampleViolation(m protoreflect.Message, path string, depth int) string {
 	if depth > 6 {
 		return ""
 	}
+	otherFile := exampleSkipOtherFiles.on && m.Descriptor().ParentFile().Path() != exampleSkipOtherFiles.file
 	fs := m.Descriptor().Fields()
 	for i := 0; i < fs.Len(); i++ {
 		fd := fs.Get(i)
@@ -42,6 +51,10 @@ func exampleViolation(m protoreflect.Message, path string, depth int) string {
 		}
 		ex := fieldExamples(fd)
 		if len(ex) == 0 || fd.IsList() || fd.IsMap() {
+			continue
+		}
+		if otherFile {
+			exampleSkipOtherFiles.skipped++
 			continue
 		}
 		v := m.Get(fd)
@@ -188,7 +201,14 @@ func buildC20(e *engine, p *rt.Package) {
 					if derr != nil {
 						t.Fatalf("the mock response does not decode as %s: %v: %s", info.Out.FullName(), derr, short(rec.Body.String(), 300))
 					}
-					if v := exampleViolation(got.ProtoReflect(), "", 0); v != "" {
+					exampleSkipOtherFiles.on = e.avoid("mock_examples_other_file")
+					exampleSkipOtherFiles.file = got.ProtoReflect().Descriptor().ParentFile().Path()
+					exampleSkipOtherFiles.skipped = 0
+					v := exampleViolation(got.ProtoReflect(), "", 0)
+					for i := 0; i < exampleSkipOtherFiles.skipped; i++ {
+						res.excluded(e.cfg.Avoid["mock_examples_other_file"] + ":mock_examples_other_file")
+					}
+					if v != "" {
 						t.Fatalf("%s\nresponse: %s", v, pjson(got))
 					}
 				}
